@@ -320,20 +320,8 @@ func c16ListingErrors(c *Ctx) {
 				}
 			}
 		}
+		helperChecked := map[*ssa.Function]bool{}
 		for _, f := range fam {
-			if top := topOf(f); top != fn && newHelpers[top] {
-				// the helper's failure must fail the operation at every call site
-				for _, cs := range helperSites[top] {
-					site, isCall := cs.(*ssa.Call)
-					if !isCall || f != top {
-						continue
-					}
-					_, bad := errPropagates(c, site.Parent(), func(_ string, call *ssa.Call) bool { return call == site }, errPropOpts{})
-					if len(bad) > 0 {
-						c.bad(fnKey(site.Parent())+":listing-helper", site.Pos(), "the error of the listing helper %s is lost: %s", top.Name(), bad[0])
-					}
-				}
-			}
 			for _, b := range f.Blocks {
 				iff := lastIf(b)
 				if iff == nil {
@@ -351,6 +339,20 @@ func c16ListingErrors(c *Ctx) {
 					continue
 				}
 				n++
+				if top := topOf(f); top != fn && newHelpers[top] && f == top && !helperChecked[top] {
+					// the listing loop lives in a new helper: its failure must fail the operation at every call site
+					helperChecked[top] = true
+					for _, cs := range helperSites[top] {
+						site, isCall := cs.(*ssa.Call)
+						if !isCall {
+							continue
+						}
+						_, badH := errPropagates(c, site.Parent(), func(_ string, call *ssa.Call) bool { return call == site }, errPropOpts{})
+						if len(badH) > 0 {
+							c.bad(fnKey(site.Parent())+":listing-helper", site.Pos(), "the error of the listing helper %s is lost: %s", top.Name(), badH[0])
+						}
+					}
+				}
 				nonNilOnTrue := (cm.op == token.NEQ) == truth
 				to := b.Succs[1]
 				if nonNilOnTrue {
